@@ -414,6 +414,8 @@ pub struct TransactionBuilder {
     pub(crate) validity_start_interval: Option<SlotBigNum>,
     pub(crate) mint: Option<MintBuilder>,
     pub(crate) script_data_hash: Option<ScriptDataHash>,
+    // true when `script_data_hash` was computed by `calc_script_data_hash` (and not given by `set_script_data_hash`)
+    pub(crate) script_data_hash_is_calculated: bool,
     pub(crate) required_signers: Ed25519KeyHashes,
     pub(crate) collateral_return: Option<TransactionOutput>,
     pub(crate) total_collateral: Option<Coin>,
@@ -1647,6 +1649,7 @@ impl TransactionBuilder {
             validity_start_interval: None,
             mint: None,
             script_data_hash: None,
+            script_data_hash_is_calculated: false,
             required_signers: Ed25519KeyHashes::new(),
             collateral_return: None,
             total_collateral: None,
@@ -2351,7 +2354,8 @@ impl TransactionBuilder {
     /// using the plutus datums and redeemers already present in the builder
     /// along with the provided cost model, and will register the calculated value
     /// in the builder to be used when building the tx body.
-    /// In case there are no plutus input witnesses present - nothing will change
+    /// In case there are no plutus input witnesses present - nothing will change,
+    /// except that a hash calculated by an earlier call of this method is removed (a hash given with `.set_script_data_hash` stays)
     /// You can set specific hash value using `.set_script_data_hash`
     /// NOTE: this function will check which language versions are used in the present scripts
     /// and will assert and require for a corresponding cost-model to be present in the passed map.
@@ -2433,6 +2437,11 @@ impl TransactionBuilder {
         if datums.is_some() || redeemers.len() > 0 || retained_cost_models.len() > 0 {
             self.script_data_hash =
                 Some(hash_script_data(&redeemers, &retained_cost_models, datums));
+            self.script_data_hash_is_calculated = true;
+        } else if self.script_data_hash_is_calculated {
+            // nothing to hash any more: a hash calculated for an earlier state of the builder must not stay
+            self.script_data_hash = None;
+            self.script_data_hash_is_calculated = false;
         }
 
         Ok(())
@@ -2443,12 +2452,14 @@ impl TransactionBuilder {
     /// Or use `.remove_script_data_hash` to delete the previously set value
     pub fn set_script_data_hash(&mut self, hash: &ScriptDataHash) {
         self.script_data_hash = Some(hash.clone());
+        self.script_data_hash_is_calculated = false;
     }
 
     /// Deletes any previously set plutus data hash value.
     /// Use `.set_script_data_hash` or `.calc_script_data_hash` to set it.
     pub fn remove_script_data_hash(&mut self) {
         self.script_data_hash = None;
+        self.script_data_hash_is_calculated = false;
     }
 
     pub fn add_required_signer(&mut self, key: &Ed25519KeyHash) {
